@@ -11,12 +11,15 @@ use std::cell::RefCell;
 use std::io::Write;
 use std::rc::Rc;
 
+/// the sink; `1` = the most bytes one `write` call accepts (short writes are legal for any `Write`; the
+/// default `write_vectored` then forwards only the first non-empty buffer). The model does not depend on it.
 #[derive(Clone)]
-struct SharedVec(Rc<RefCell<Vec<u8>>>);
+struct SharedVec(Rc<RefCell<Vec<u8>>>, usize);
 impl Write for SharedVec {
     fn write(&mut self, buf: &[u8]) -> std::io::Result<usize> {
-        self.0.borrow_mut().extend_from_slice(buf);
-        Ok(buf.len())
+        let n = buf.len().min(self.1);
+        self.0.borrow_mut().extend_from_slice(&buf[..n]);
+        Ok(n)
     }
     fn flush(&mut self) -> std::io::Result<()> {
         Ok(())
@@ -180,11 +183,13 @@ struct LayoutSpec {
     h: u32,
     d: Option<u32>,
     mips: u32,
+    /// exhaustive call trees (small layouts) or only walks + random sequences (large / long ones)
+    tree: bool,
 }
 
 fn layouts() -> Vec<LayoutSpec> {
     let mut v = vec![];
-    let mut push = |kind: Kind, w, h, d, mips| v.push(LayoutSpec { kind, w, h, d, mips });
+    let mut push = |kind: Kind, w, h, d, mips| v.push(LayoutSpec { kind, w, h, d, mips, tree: true });
     let tex = Kind::Dx10 { cube: false, dim: 2, array: 1 };
     push(tex.clone(), 4, 4, None, 1);
     push(tex.clone(), 8, 4, None, 3);
@@ -202,6 +207,16 @@ fn layouts() -> Vec<LayoutSpec> {
     push(Kind::Dx10 { cube: false, dim: 3, array: 1 }, 4, 4, Some(3), 1);
     push(Kind::Dx10 { cube: false, dim: 3, array: 1 }, 4, 2, Some(4), 3);
     push(Kind::Dx9 { caps2: 0x200000 }, 2, 2, Some(2), 2);
+    // seeds C11g / C11h: surfaces large enough to be split into fragments by the parallel encoder, and mip chains
+    // longer than 32 levels (legal up to 255; every level >= 31 is 1x1(x1)) — walks and random sequences only
+    let mut big = |kind: Kind, w, h, d, mips| v.push(LayoutSpec { kind, w, h, d, mips, tree: false });
+    big(tex.clone(), 128, 128, None, 1);
+    big(Kind::Dx10 { cube: false, dim: 2, array: 2 }, 192, 96, None, 2);
+    big(tex.clone(), 3, 2, None, 36);
+    big(Kind::Dx10 { cube: true, dim: 2, array: 1 }, 2, 2, None, 34);
+    big(Kind::Dx10 { cube: false, dim: 3, array: 1 }, 4, 2, Some(2), 40);
+    big(Kind::Dx10 { cube: false, dim: 3, array: 1 }, 1, 1, Some(3), 255);
+    big(Kind::Dx9 { caps2: 0x200000 }, 2, 6, Some(5), 35);
     v
 }
 
@@ -255,6 +270,41 @@ pub fn gen(seed: u64, thorough: bool) -> Vec<String> {
             );
             // exhaustive trees over the 5 call kinds (finish appended to every leaf and every second inner node)
             let mut stack: Vec<(SpecState, Vec<Op>)> = vec![(SpecState { k: 0, written: 0, generate: true }, vec![])];
+            if !l.tree {
+                stack.clear();
+            }
+            // walks: every surface of the layout written in order (generation off / on), finish; and walks with one
+            // disturbing call (wrong size, cancelled, option change) inserted somewhere
+            for variant in 0..(if l.tree { 3 } else { 6 }) {
+                let mut se = SpecEnc { spec: &spec, k: 0, written: 0, generate: true, mul: (*mw, *mh) };
+                let mut seq = vec![];
+                if variant % 2 == 0 {
+                    seq.push(Op::Gen(false));
+                    se.step(&Op::Gen(false));
+                }
+                let disturb = if variant >= 2 { Some(rng.below(spec.flat.len() as u64 + 1) as usize) } else { None };
+                let mut guard = 0;
+                while se.k < spec.flat.len() && guard < 2000 {
+                    guard += 1;
+                    if Some(se.k) == disturb && guard < 1900 {
+                        let vs = variants(&spec, se.k, &mut rng, true);
+                        let op = vs[1 + rng.below(vs.len() as u64 - 1) as usize].clone();
+                        se.step(&op);
+                        seq.push(op);
+                        guard = 1900;
+                        continue;
+                    }
+                    let k0 = se.k;
+                    let op = Op::Write(spec.flat[se.k].w, spec.flat[se.k].h);
+                    se.step(&op);
+                    seq.push(op);
+                    if se.k == k0 {
+                        break; // a surface the format cannot take (size multiple): the walk ends here
+                    }
+                }
+                seq.push(Op::Finish);
+                out.push(format!("{} {}", head, seq.iter().map(|o| o.fmt()).collect::<Vec<_>>().join(" ")));
+            }
             while let Some((st, seq)) = stack.pop() {
                 if seq.len() == depth {
                     let mut s = seq.clone();
@@ -270,7 +320,7 @@ pub fn gen(seed: u64, thorough: bool) -> Vec<String> {
                     stack.push((SpecState { k: se.k, written: se.written, generate: se.generate }, s2));
                 }
             }
-            let nrand = if thorough { 300 } else { 40 };
+            let nrand = if !l.tree { if thorough { 40 } else { 6 } } else if thorough { 300 } else { 40 };
             for _ in 0..nrand {
                 let len = rng.range(3, 30) as usize;
                 let mut se = SpecEnc { spec: &spec, k: 0, written: 0, generate: true, mul: (*mw, *mh) };
@@ -350,7 +400,12 @@ pub fn run(line: &str) -> Option<(String, Vec<String>)> {
         },
     }
     let header_len = 4 + header.byte_len() as u64;
-    let sink = SharedVec(Rc::new(RefCell::new(Vec::new())));
+    // writer behaviour and the parallel switch are derived from the case line (a pure function of it, so a replay
+    // reproduces them); the byte accounting of the property does not depend on either
+    let hash = line.bytes().fold(0xcbf29ce484222325u64, |a, b| (a ^ b as u64).wrapping_mul(0x100000001b3));
+    let limit = [usize::MAX, usize::MAX, 1000, 7, 4096, 100][(hash % 6) as usize];
+    let parallel = (hash >> 11) % 2 == 1;
+    let sink = SharedVec(Rc::new(RefCell::new(Vec::new())), limit);
     let mut enc = match Encoder::new(sink.clone(), format, &header) {
         Ok(e) => Some(e),
         Err(e) => return Some((err_name(&e), oracle)),
@@ -358,7 +413,7 @@ pub fn run(line: &str) -> Option<(String, Vec<String>)> {
     {
         let e = enc.as_mut().unwrap();
         e.options.quality = CompressionQuality::Fast;
-        e.options.parallel = false;
+        e.options.parallel = parallel;
     }
     let spec = build_spec(&kind, w, h, d, mips, px);
     let mut se = SpecEnc { spec: &spec, k: 0, written: 0, generate: true, mul: (mw, mh) };
